@@ -91,6 +91,7 @@ pub open spec fn BOUND() -> int { 0x4000_0000 }
 
 // Well-formedness used as precondition: no hole anywhere, every index below `b`, and the binder
 // depth reached from cutoff `c` stays below `b`.
+#[verifier::opaque]
 pub open spec fn s_ok(t: STerm, c: nat, b: nat) -> bool
     decreases t
 {
@@ -104,6 +105,7 @@ pub open spec fn s_ok(t: STerm, c: nat, b: nat) -> bool
 // Shifting (TAPL 6.2.1 generalised to n-ary binders and to negative amounts): add d to every
 // index >= c, the cutoff growing by the number of binders crossed.  None iff a hole is met or a
 // shifted index would fall below its cutoff (the variable would become unbound / captured).
+#[verifier::opaque]
 pub open spec fn s_shift(t: STerm, c: nat, d: int) -> Option<STerm>
     decreases t
 {
@@ -124,6 +126,7 @@ pub open spec fn s_raise(u: STerm, s: nat) -> STerm {
 
 // Opening (TAPL 6.2.4 combined with the removal of the binder): replace index j by u (raised by the
 // number of binders crossed, plus s), lower the indices above j by one.
+#[verifier::opaque]
 pub open spec fn s_open(t: STerm, j: nat, u: STerm, s: nat) -> STerm
     decreases t
 {
@@ -136,6 +139,7 @@ pub open spec fn s_open(t: STerm, j: nat, u: STerm, s: nat) -> STerm
 }
 
 // x is a free variable of t relative to cutoff c (i.e. index c + x occurs free at the root).
+#[verifier::opaque]
 pub open spec fn s_has_fv(t: STerm, c: nat, x: nat) -> bool
     decreases t
 {
@@ -159,14 +163,70 @@ pub open spec fn defs_fv<'a>(defs: Seq<(&'a str, Rc<Term<'a>>, Rc<Term<'a>>)>, n
 
 // ---- per-arity unfolding lemmas (broadcast inside the exec functions) -----------------------------
 
+pub broadcast proof fn lemma_ok_var(i: nat, c: nat, b: nat)
+    ensures #[trigger] s_ok(STerm::Var(i), c, b) == (i < b && c < b)
+{
+    reveal(s_ok);
+}
+
+pub broadcast proof fn lemma_ok_hole(c: nat, b: nat)
+    ensures !(#[trigger] s_ok(STerm::Hole, c, b))
+{
+    reveal(s_ok);
+}
+
+pub broadcast proof fn lemma_shift_var(i: nat, c: nat, d: int)
+    ensures #[trigger] s_shift(STerm::Var(i), c, d) == (if i >= c { if i + d >= c { Some(STerm::Var((i + d) as nat)) } else { None } } else { Some(STerm::Var(i)) })
+{
+    reveal(s_shift);
+}
+
+pub broadcast proof fn lemma_shift_hole(c: nat, d: int)
+    ensures (#[trigger] s_shift(STerm::Hole, c, d)) is None
+{
+    reveal(s_shift);
+}
+
+pub broadcast proof fn lemma_open_var(i: nat, j: nat, u: STerm, s: nat)
+    ensures #[trigger] s_open(STerm::Var(i), j, u, s) == (if i == j { s_raise(u, s) } else if i > j { STerm::Var((i - 1) as nat) } else { STerm::Var(i) })
+{
+    reveal(s_open);
+}
+
+pub broadcast proof fn lemma_open_hole(j: nat, u: STerm, s: nat)
+    ensures #[trigger] s_open(STerm::Hole, j, u, s) == STerm::Hole
+{
+    reveal(s_open);
+}
+
+pub broadcast proof fn lemma_fv_var(i: nat, c: nat, x: nat)
+    ensures #[trigger] s_has_fv(STerm::Var(i), c, x) == (i >= c && i - c == x)
+{
+    reveal(s_has_fv);
+}
+
+pub broadcast proof fn lemma_fv_hole(c: nat, x: nat)
+    ensures !(#[trigger] s_has_fv(STerm::Hole, c, x))
+{
+    reveal(s_has_fv);
+}
+
+// Broadcast groups used by the exec functions (the recursive definitions themselves stay hidden).
+pub broadcast group group_ok { lemma_ok_var, lemma_ok_hole, lemma_ok0, lemma_ok1, lemma_ok2, lemma_ok3 }
+pub broadcast group group_shift { lemma_shift_var, lemma_shift_hole, lemma_shift0, lemma_shift1, lemma_shift2, lemma_shift3 }
+pub broadcast group group_open { lemma_open_var, lemma_open_hole, lemma_open0, lemma_open1, lemma_open2, lemma_open3 }
+pub broadcast group group_fv { lemma_fv_var, lemma_fv_hole, lemma_fv0, lemma_fv1, lemma_fv2, lemma_fv3 }
+
 pub broadcast proof fn lemma_ok0(k: Kind, c: nat, b: nat)
     ensures #[trigger] s_ok(STerm::Node(k, s0()), c, b) == (c < b)
 {
+    reveal(s_ok); reveal(s_shift); reveal(s_open); reveal(s_has_fv);
 }
 
 pub broadcast proof fn lemma_ok1(k: Kind, a: STerm, c: nat, b: nat)
     ensures #[trigger] s_ok(STerm::Node(k, s1(a)), c, b) == (c < b && s_ok(a, c + binds(k, 1, 0), b))
 {
+    reveal(s_ok); reveal(s_shift); reveal(s_open); reveal(s_has_fv);
     let kids = s1(a);
     assert(kids[0] == a);
     assert(kids.len() == 1);
@@ -182,6 +242,7 @@ pub broadcast proof fn lemma_ok1(k: Kind, a: STerm, c: nat, b: nat)
 pub broadcast proof fn lemma_ok2(k: Kind, a: STerm, a2: STerm, c: nat, b: nat)
     ensures #[trigger] s_ok(STerm::Node(k, s2(a, a2)), c, b) == (c < b && s_ok(a, c + binds(k, 2, 0), b) && s_ok(a2, c + binds(k, 2, 1), b))
 {
+    reveal(s_ok); reveal(s_shift); reveal(s_open); reveal(s_has_fv);
     let kids = s2(a, a2);
     assert(kids[0] == a);
     assert(kids[1] == a2);
@@ -199,6 +260,7 @@ pub broadcast proof fn lemma_ok2(k: Kind, a: STerm, a2: STerm, c: nat, b: nat)
 pub broadcast proof fn lemma_ok3(k: Kind, a: STerm, a2: STerm, a3: STerm, c: nat, b: nat)
     ensures #[trigger] s_ok(STerm::Node(k, s3(a, a2, a3)), c, b) == (c < b && s_ok(a, c + binds(k, 3, 0), b) && s_ok(a2, c + binds(k, 3, 1), b) && s_ok(a3, c + binds(k, 3, 2), b))
 {
+    reveal(s_ok); reveal(s_shift); reveal(s_open); reveal(s_has_fv);
     let kids = s3(a, a2, a3);
     assert(kids[0] == a);
     assert(kids[1] == a2);
@@ -218,6 +280,7 @@ pub broadcast proof fn lemma_ok3(k: Kind, a: STerm, a2: STerm, a3: STerm, c: nat
 pub broadcast proof fn lemma_shift0(k: Kind, c: nat, d: int)
     ensures #[trigger] s_shift(STerm::Node(k, s0()), c, d) == Some(STerm::Node(k, s0()))
 {
+    reveal(s_ok); reveal(s_shift); reveal(s_open); reveal(s_has_fv);
     let r = s_shift(STerm::Node(k, s0()), c, d);
     assert(r.unwrap()->Node_1 =~= s0());
 }
@@ -227,6 +290,7 @@ pub broadcast proof fn lemma_shift1(k: Kind, a: STerm, c: nat, d: int)
         Some(x) => Some(STerm::Node(k, s1(x))),
         None => None })
 {
+    reveal(s_ok); reveal(s_shift); reveal(s_open); reveal(s_has_fv);
     let kids = s1(a);
     assert(kids[0] == a);
     assert(kids.len() == 1);
@@ -244,6 +308,7 @@ pub broadcast proof fn lemma_shift2(k: Kind, a: STerm, b: STerm, c: nat, d: int)
         (Some(x), Some(y)) => Some(STerm::Node(k, s2(x, y))),
         _ => None })
 {
+    reveal(s_ok); reveal(s_shift); reveal(s_open); reveal(s_has_fv);
     let kids = s2(a, b);
     assert(kids[0] == a);
     assert(kids[1] == b);
@@ -263,6 +328,7 @@ pub broadcast proof fn lemma_shift3(k: Kind, a: STerm, b: STerm, e: STerm, c: na
         (Some(x), Some(y), Some(z)) => Some(STerm::Node(k, s3(x, y, z))),
         _ => None })
 {
+    reveal(s_ok); reveal(s_shift); reveal(s_open); reveal(s_has_fv);
     let kids = s3(a, b, e);
     assert(kids[0] == a);
     assert(kids[1] == b);
@@ -287,20 +353,34 @@ pub proof fn lemma_shift_node(k: Kind, kids: Seq<STerm>, rkids: Seq<STerm>, c: n
     ensures
         s_shift(STerm::Node(k, kids), c, d) == Some(STerm::Node(k, rkids)),
 {
+    reveal(s_ok); reveal(s_shift); reveal(s_open); reveal(s_has_fv);
     let r = s_shift(STerm::Node(k, kids), c, d);
     assert(r is Some);
     assert(r.unwrap()->Node_1 =~= rkids);
 }
 
+pub proof fn lemma_shift_node_none(k: Kind, kids: Seq<STerm>, c: nat, d: int, i: int)
+    requires
+        0 <= i < kids.len(),
+        s_shift(kids[i], c + binds(k, kids.len(), i), d) is None,
+    ensures
+        s_shift(STerm::Node(k, kids), c, d) is None,
+{
+    reveal(s_shift);
+    assert(STerm::Node(k, kids)->Node_1 == kids);
+}
+
 pub broadcast proof fn lemma_open0(k: Kind, j: nat, u: STerm, s: nat)
     ensures #[trigger] s_open(STerm::Node(k, s0()), j, u, s) == STerm::Node(k, s0())
 {
+    reveal(s_ok); reveal(s_shift); reveal(s_open); reveal(s_has_fv);
     assert(s_open(STerm::Node(k, s0()), j, u, s)->Node_1 =~= s0());
 }
 
 pub broadcast proof fn lemma_open1(k: Kind, a: STerm, j: nat, u: STerm, s: nat)
     ensures #[trigger] s_open(STerm::Node(k, s1(a)), j, u, s) == STerm::Node(k, s1(s_open(a, j + binds(k, 1, 0), u, s + binds(k, 1, 0))))
 {
+    reveal(s_ok); reveal(s_shift); reveal(s_open); reveal(s_has_fv);
     let kids = s1(a);
     assert(kids[0] == a);
     assert(s_open(STerm::Node(k, kids), j, u, s)->Node_1 =~= s1(s_open(a, j + binds(k, 1, 0), u, s + binds(k, 1, 0))));
@@ -311,6 +391,7 @@ pub broadcast proof fn lemma_open2(k: Kind, a: STerm, b: STerm, j: nat, u: STerm
         s_open(a, j + binds(k, 2, 0), u, s + binds(k, 2, 0)),
         s_open(b, j + binds(k, 2, 1), u, s + binds(k, 2, 1))))
 {
+    reveal(s_ok); reveal(s_shift); reveal(s_open); reveal(s_has_fv);
     let kids = s2(a, b);
     assert(kids[0] == a);
     assert(kids[1] == b);
@@ -325,6 +406,7 @@ pub broadcast proof fn lemma_open3(k: Kind, a: STerm, b: STerm, e: STerm, j: nat
         s_open(b, j + binds(k, 3, 1), u, s + binds(k, 3, 1)),
         s_open(e, j + binds(k, 3, 2), u, s + binds(k, 3, 2))))
 {
+    reveal(s_ok); reveal(s_shift); reveal(s_open); reveal(s_has_fv);
     let kids = s3(a, b, e);
     assert(kids[0] == a);
     assert(kids[1] == b);
@@ -342,17 +424,20 @@ pub proof fn lemma_open_node(k: Kind, kids: Seq<STerm>, rkids: Seq<STerm>, j: na
     ensures
         s_open(STerm::Node(k, kids), j, u, s) == STerm::Node(k, rkids),
 {
+    reveal(s_ok); reveal(s_shift); reveal(s_open); reveal(s_has_fv);
     assert(s_open(STerm::Node(k, kids), j, u, s)->Node_1 =~= rkids);
 }
 
 pub broadcast proof fn lemma_fv0(k: Kind, c: nat, x: nat)
     ensures !(#[trigger] s_has_fv(STerm::Node(k, s0()), c, x))
 {
+    reveal(s_ok); reveal(s_shift); reveal(s_open); reveal(s_has_fv);
 }
 
 pub broadcast proof fn lemma_fv1(k: Kind, a: STerm, c: nat, x: nat)
     ensures #[trigger] s_has_fv(STerm::Node(k, s1(a)), c, x) == s_has_fv(a, c + binds(k, 1, 0), x)
 {
+    reveal(s_ok); reveal(s_shift); reveal(s_open); reveal(s_has_fv);
     let kids = s1(a);
     assert(kids[0] == a);
     assert(STerm::Node(k, kids)->Node_1 == kids);
@@ -362,6 +447,7 @@ pub broadcast proof fn lemma_fv1(k: Kind, a: STerm, c: nat, x: nat)
 pub broadcast proof fn lemma_fv2(k: Kind, a: STerm, b: STerm, c: nat, x: nat)
     ensures #[trigger] s_has_fv(STerm::Node(k, s2(a, b)), c, x) == (s_has_fv(a, c + binds(k, 2, 0), x) || s_has_fv(b, c + binds(k, 2, 1), x))
 {
+    reveal(s_ok); reveal(s_shift); reveal(s_open); reveal(s_has_fv);
     let kids = s2(a, b);
     assert(kids[0] == a);
     assert(kids[1] == b);
@@ -373,6 +459,7 @@ pub broadcast proof fn lemma_fv2(k: Kind, a: STerm, b: STerm, c: nat, x: nat)
 pub broadcast proof fn lemma_fv3(k: Kind, a: STerm, b: STerm, e: STerm, c: nat, x: nat)
     ensures #[trigger] s_has_fv(STerm::Node(k, s3(a, b, e)), c, x) == (s_has_fv(a, c + binds(k, 3, 0), x) || s_has_fv(b, c + binds(k, 3, 1), x) || s_has_fv(e, c + binds(k, 3, 2), x))
 {
+    reveal(s_ok); reveal(s_shift); reveal(s_open); reveal(s_has_fv);
     let kids = s3(a, b, e);
     assert(kids[0] == a);
     assert(kids[1] == b);
@@ -395,6 +482,7 @@ pub proof fn lemma_let_kids<'a>(t: Term<'a>, defs: Vec<(&'a str, Rc<Term<'a>>, R
         forall|j: int| 0 <= j < defs@.len() ==> #[trigger] kids_of(t)[j + defs@.len()] == view(*defs@[j].2),
         kids_of(t)[2 * defs@.len() as int] == view(*body),
 {
+    reveal(s_ok); reveal(s_shift); reveal(s_open); reveal(s_has_fv);
 }
 
 // The s_ok unfolding for a definition group.
@@ -407,6 +495,7 @@ pub proof fn lemma_ok_let<'a>(t: Term<'a>, defs: Vec<(&'a str, Rc<Term<'a>>, Rc<
         forall|j: int| 0 <= j < defs@.len() ==> s_ok(view(*(#[trigger] defs@[j]).1), c + defs@.len(), b) && s_ok(view(*defs@[j].2), c + defs@.len(), b),
         s_ok(view(*body), c + defs@.len(), b),
 {
+    reveal(s_ok); reveal(s_shift); reveal(s_open); reveal(s_has_fv);
     lemma_let_kids(t, defs, body);
     let kids = kids_of(t);
     let m = defs@.len() as int;
@@ -422,6 +511,7 @@ pub proof fn lemma_defs_fv_iff<'a>(defs: Seq<(&'a str, Rc<Term<'a>>, Rc<Term<'a>
     ensures defs_fv(defs, n, c, x) <==> exists|j: int| 0 <= j < n && #[trigger] def_has_fv(defs, j, c, x)
     decreases n
 {
+    reveal(s_ok); reveal(s_shift); reveal(s_open); reveal(s_has_fv);
     if n > 0 {
         lemma_defs_fv_iff(defs, (n - 1) as nat, c, x);
         if defs_fv(defs, (n - 1) as nat, c, x) {
@@ -445,6 +535,7 @@ pub proof fn lemma_fv_let<'a>(t: Term<'a>, defs: Vec<(&'a str, Rc<Term<'a>>, Rc<
     ensures
         s_has_fv(view(t), c, x) <==> (defs_fv(defs@, defs@.len(), c + defs@.len(), x) || s_has_fv(view(*body), c + defs@.len(), x)),
 {
+    reveal(s_ok); reveal(s_shift); reveal(s_open); reveal(s_has_fv);
     lemma_let_kids(t, defs, body);
     let kids = kids_of(t);
     let m = defs@.len() as int;
